@@ -153,30 +153,21 @@ theorem no_report_type_in_clones (sg dg : Graph) (ps : List Pending)
     · rw [ho] at ho'; injection ho' with ho'; exact ho'.symm
   · rw [ho] at hk; injection hk
 
-/-- **every result node is well-formed**: a node typed sh:ValidationResult stands for one result `r` — nested
-    results below sh:detail included — and has exactly one sh:focusNode, sh:resultSeverity,
-    sh:sourceConstraintComponent and sh:sourceShape, at most one sh:value and sh:resultPath, each being the
-    corresponding term of `r`, and no other rdf:type -/
-theorem result_node_wellformed (sg dg : Graph) (conf : Bool) (rs : List Result) (idx : List Nat)
-    (h : (⟨.fresh idx, rdfType, .term shValidationResult⟩ : RTriple) ∈ reportGraph sg dg conf rs) :
-    ∃ r : Result,
-      (∀ o, (⟨.fresh idx, shFocusNode, o⟩ : RTriple) ∈ reportGraph sg dg conf rs ↔ o = .term r.focus) ∧
-      (∀ o, (⟨.fresh idx, shResultSeverity, o⟩ : RTriple) ∈ reportGraph sg dg conf rs ↔ o = .term r.severity) ∧
-      (∀ o, (⟨.fresh idx, shSourceConstraintComponent, o⟩ : RTriple) ∈ reportGraph sg dg conf rs ↔ o = .term r.component) ∧
-      (∀ o, (⟨.fresh idx, shSourceShape, o⟩ : RTriple) ∈ reportGraph sg dg conf rs ↔ o = .term r.shape) ∧
-      (∀ o, (⟨.fresh idx, shValue, o⟩ : RTriple) ∈ reportGraph sg dg conf rs ↔ ∃ t, r.value = some t ∧ o = .term t) ∧
-      (∀ o, (⟨.fresh idx, shResultPath, o⟩ : RTriple) ∈ reportGraph sg dg conf rs ↔ ∃ t, r.rpath = some t ∧ o = .term t) ∧
-      (∀ o, (⟨.fresh idx, rdfType, o⟩ : RTriple) ∈ reportGraph sg dg conf rs ↔ o = .term shValidationResult) := by
-  have hne : idx ≠ [] := by
-    intro he; subst he
-    rw [mem_reportGraph_root] at h
-    rcases h with ⟨_, h⟩ | ⟨h, _⟩ | ⟨h, _⟩
-    · injection h with h; exact absurd h (by decide)
-    · exact absurd h (by decide)
-    · exact absurd h (by decide)
-  rw [mem_reportGraph_fresh sg dg conf rs idx hne] at h
-  obtain ⟨x, hx, hs, _, _⟩ := h
-  obtain ⟨r, hr⟩ := top_node_stands_for dg rs idx ⟨x, hx, hs⟩
+/-- what it means for node `idx` of report graph `G` to be a well-formed rendering of result `r`: exactly one
+    sh:focusNode, sh:resultSeverity, sh:sourceConstraintComponent and sh:sourceShape, at most one sh:value and
+    sh:resultPath, each being the corresponding term of `r`, and no rdf:type but sh:ValidationResult -/
+def WellFormedNode (G : List RTriple) (idx : List Nat) (r : Result) : Prop :=
+  (∀ o, (⟨.fresh idx, shFocusNode, o⟩ : RTriple) ∈ G ↔ o = .term r.focus) ∧
+  (∀ o, (⟨.fresh idx, shResultSeverity, o⟩ : RTriple) ∈ G ↔ o = .term r.severity) ∧
+  (∀ o, (⟨.fresh idx, shSourceConstraintComponent, o⟩ : RTriple) ∈ G ↔ o = .term r.component) ∧
+  (∀ o, (⟨.fresh idx, shSourceShape, o⟩ : RTriple) ∈ G ↔ o = .term r.shape) ∧
+  (∀ o, (⟨.fresh idx, shValue, o⟩ : RTriple) ∈ G ↔ ∃ t, r.value = some t ∧ o = .term t) ∧
+  (∀ o, (⟨.fresh idx, shResultPath, o⟩ : RTriple) ∈ G ↔ ∃ t, r.rpath = some t ∧ o = .term t) ∧
+  (∀ o, (⟨.fresh idx, rdfType, o⟩ : RTriple) ∈ G ↔ o = .term shValidationResult)
+
+theorem wellformed_of_stands_for (sg dg : Graph) (conf : Bool) (rs : List Result) (idx : List Nat) (hne : idx ≠ [])
+    (r : Result) (hr : ∀ x, (x ∈ resultsPending dg 0 rs ∧ x.s = .fresh idx) ↔ NodeTriples dg idx r x) :
+    WellFormedNode (reportGraph sg dg conf rs) idx r := by
   -- the triples about this node with a given predicate, read off the prepared triples of `r`
   have key : ∀ (p : Term) (o : RNode), (⟨.fresh idx, p, o⟩ : RTriple) ∈ reportGraph sg dg conf rs ↔
       ∃ y, NodeTriples dg idx r y ∧ y.p = p ∧ y.o.resolve = o := by
@@ -185,7 +176,7 @@ theorem result_node_wellformed (sg dg : Graph) (conf : Bool) (rs : List Result) 
     constructor
     · rintro ⟨y, hy, h1, h2, h3⟩; exact ⟨y, (hr y).1 ⟨hy, h1⟩, h2, h3⟩
     · rintro ⟨y, hy, h2, h3⟩; have := (hr y).2 hy; exact ⟨y, this.1, this.2, h2, h3⟩
-  refine ⟨r, ?_, ?_, ?_, ?_, ?_, ?_, ?_⟩
+  refine ⟨?_, ?_, ?_, ?_, ?_, ?_, ?_⟩
   all_goals
     intro o
     rw [key]
@@ -207,6 +198,68 @@ theorem result_node_wellformed (sg dg : Graph) (conf : Bool) (rs : List Result) 
   · rintro ⟨t, ht, ho⟩; subst ho
     exact ⟨_, Or.inl (Or.inr (Or.inr (Or.inr (Or.inr (Or.inr (Or.inr (Or.inl ⟨t, ht, rfl⟩))))))), rfl, rfl⟩
   · intro ho; subst ho; exact ⟨_, Or.inl (Or.inl rfl), rfl, rfl⟩
+
+/-- **every result node is well-formed**: a node typed sh:ValidationResult stands for one result `r` — nested
+    results below sh:detail included — and is a well-formed rendering of it -/
+theorem result_node_wellformed (sg dg : Graph) (conf : Bool) (rs : List Result) (idx : List Nat)
+    (h : (⟨.fresh idx, rdfType, .term shValidationResult⟩ : RTriple) ∈ reportGraph sg dg conf rs) :
+    ∃ r : Result, WellFormedNode (reportGraph sg dg conf rs) idx r := by
+  have hne : idx ≠ [] := by
+    intro he; subst he
+    rw [mem_reportGraph_root] at h
+    rcases h with ⟨_, h⟩ | ⟨h, _⟩ | ⟨h, _⟩
+    · injection h with h; exact absurd h (by decide)
+    · exact absurd h (by decide)
+    · exact absurd h (by decide)
+  rw [mem_reportGraph_fresh sg dg conf rs idx hne] at h
+  obtain ⟨x, hx, hs, _, _⟩ := h
+  obtain ⟨r, hr⟩ := top_node_stands_for dg rs idx ⟨x, hx, hs⟩
+  exact ⟨r, wellformed_of_stands_for sg dg conf rs idx hne r hr⟩
+
+/-- the node behind the i-th `sh:result` link is a well-formed rendering of the i-th result -/
+theorem top_result_wellformed (sg dg : Graph) (conf : Bool) (rs : List Result) (i : Nat) (r : Result)
+    (hi : rs[i]? = some r) : WellFormedNode (reportGraph sg dg conf rs) [i] r :=
+  wellformed_of_stands_for sg dg conf rs [i] (by simp) r (top_node_is dg rs i r hi)
+
+/-- **the verdict read off the report graph**: for a run that returns, `sh:conforms` is false exactly when some
+    node linked by `sh:result` has a `sh:resultSeverity` that is not waived by allow_infos / allow_warnings -/
+theorem report_verdict_formula (o : Opts) (sg dg : Graph) (rx : Regex) (focus : List Term) (desc : Result → String)
+    (conf : Bool) (rs : List Result) (h : runValidate o sg dg rx focus [] = .ok (conf, rs))
+    (b : Bool) (g : List RTriple) (text : String) (hrep : createReport sg dg desc conf rs = .ok (b, g, text)) :
+    (⟨.fresh [], shConforms, .term (boolLit false)⟩ : RTriple) ∈ g ↔
+      ∃ n sev, (⟨.fresh [], shResult, n⟩ : RTriple) ∈ g ∧ (⟨n, shResultSeverity, .term sev⟩ : RTriple) ∈ g ∧
+        sev ∉ allowedSeverities o := by
+  have h3 := three_renderings_agree sg dg desc conf rs b g text hrep
+  have hg : g = reportGraph sg dg conf rs := by
+    unfold createReport at hrep
+    split at hrep
+    · simp at hrep
+    · injection hrep with hrep; injection hrep with _ h2; injection h2 with h2 _; exact h2.symm
+  rw [h3.2.1]
+  have hv := verdict_formula o sg dg rx focus conf rs h
+  constructor
+  · intro hc
+    have hconf : conf = false := by
+      injection hc with hc; cases conf <;> simp_all [boolLit]
+    obtain ⟨r, hr, hsev⟩ := hv.1 hconf
+    obtain ⟨i, hi⟩ := List.mem_iff_getElem?.1 hr
+    have hlt : i < rs.length := by
+      rcases Nat.lt_or_ge i rs.length with h' | h'
+      · exact h'
+      · rw [List.getElem?_eq_none h'] at hi; cases hi
+    refine ⟨.fresh [i], r.severity, ?_, ?_, hsev⟩
+    · rw [hg, result_links]; exact ⟨i, hlt, rfl⟩
+    · rw [hg]; exact ((top_result_wellformed sg dg conf rs i r hi).2.1 _).2 rfl
+  · rintro ⟨n, sev, hl, hs, hw⟩
+    rw [hg, result_links] at hl
+    obtain ⟨i, hlt, hn⟩ := hl
+    subst hn
+    have hi : rs[i]? = some rs[i] := List.getElem?_eq_getElem hlt
+    rw [hg] at hs
+    have := ((top_result_wellformed sg dg conf rs i rs[i] hi).2.1 _).1 hs
+    injection this with this
+    have hconf : conf = false := hv.2 ⟨rs[i], List.getElem_mem hlt, by rw [← this]; exact hw⟩
+    rw [hconf]
 
 /-- the i-th `sh:result` link leads to a node that stands for the i-th result -/
 theorem top_result_node (sg dg : Graph) (conf : Bool) (rs : List Result) (i : Nat) (r : Result) (hi : rs[i]? = some r) :
